@@ -15,6 +15,17 @@ class _SkiaPen(BasePen):
     def _endPath(self): pass
 
 PF=ot.PaintFormat
+_VAR={int(PF.PaintVarSolid),int(PF.PaintVarLinearGradient),int(PF.PaintVarRadialGradient),int(PF.PaintVarSweepGradient),int(PF.PaintVarTransform),
+      int(PF.PaintVarTranslate),int(PF.PaintVarScale),int(PF.PaintVarScaleAroundCenter),int(PF.PaintVarScaleUniform),int(PF.PaintVarScaleUniformAroundCenter),
+      int(PF.PaintVarRotate),int(PF.PaintVarRotateAroundCenter),int(PF.PaintVarSkew),int(PF.PaintVarSkewAroundCenter)}
+def static_format(paint):
+    """a variable paint format whose variation index says 'no variation' (what a full instance
+    leaves behind) denotes its static counterpart; a live variation is not evaluated here"""
+    f=int(paint.Format)
+    if f in _VAR:
+        if getattr(paint,'VarIndexBase',0xFFFFFFFF)!=0xFFFFFFFF: raise NotImplementedError('live variable paint %d'%f)
+        return f-1
+    return f
 class ColrPicture:
     def __init__(self, font, foreground=(0.2,0.9,0.4,1.0)):
         self.font=font; self._gs=None; self._paths={}
@@ -54,7 +65,7 @@ class ColrPicture:
         if paint is None: return (0,0,0,0)
         return self.ev(paint,p,aff.I)
     def xform(self,paint):
-        f=paint.Format
+        f=static_format(paint)
         if f==PF.PaintTransform:
             t=paint.Transform; return (t.xx,t.yx,t.xy,t.yy,t.dx,t.dy)
         if f==PF.PaintTranslate: return aff.tr(paint.dx,paint.dy)
@@ -70,7 +81,7 @@ class ColrPicture:
     def stops(self,cl):
         return sorted(((s.StopOffset,self.color(s.PaletteIndex,s.Alpha)) for s in cl.ColorStop),key=lambda s:s[0])
     def ev(self,paint,p,T):
-        f=paint.Format
+        f=static_format(paint)
         if f==PF.PaintColrLayers:
             out=(0,0,0,0)
             ll=self.colr.table.LayerList.Paint
@@ -127,7 +138,7 @@ def placing_scales(font):
         m = pic.xform(p)
         if m is not None:
             T = aff.mul(T, m)
-        if p.Format == PF.PaintGlyph:
+        if static_format(p) == PF.PaintGlyph:
             a_, b_, c_, d_ = T[:4]
             best[0] = max(best[0], _m.hypot(a_, b_), _m.hypot(c_, d_))
         for ch in p.getChildren(table):
